@@ -47,9 +47,9 @@ META = {
     "C02": {
         "technique": "per-assertion checker verdict vs concrete executions (differential against the reference interpreter); choice-tape PBT and libFuzzer",
         "text": "Sampled search: a SAFE verdict is refuted by one concrete execution that reaches the assertion with a false condition, an UNREACHABLE "
-                "verdict by one execution that reaches it. Warnings are never inspected. Currently the intra-procedural forward analyzer with the "
-                "assertion checker on six domains.",
-        "note": "Forward+backward and inter-procedural analyzers are not covered yet. Executions are sampled (4-12 per program).",
+                "verdict by one execution that reaches it. Warnings are never inspected. Covered: the intra-procedural forward analyzer + checker (six domains), the forward+backward "
+                "analyzer + checker (three domains), the checker interleaved with the top-down inter-procedural analyzer and inter_checker on the bottom-up analyzer.",
+        "note": "Executions are sampled (4-24 per program); the top-down analyzer's per-context verdict lists are read conservatively (a claim needs every entry to agree).",
     },
     "C03": {
         "technique": "stateful model-based testing with witness sets (concrete images of sampled states) + gamma-membership oracle; choice-tape PBT and libFuzzer",
@@ -71,7 +71,7 @@ META = {
                 "ascending chains must become stationary within a generous structural bound on the number of strict increases, every widening result "
                 "must contain the witnesses of both arguments and narrowing of a decreasing pair the witnesses of its second argument.",
         "note": "Termination can only be refuted, by exceeding the budget/bound; the bound is an over-estimate (observed increases are reported next to it). "
-                "Backward and inter-procedural analyses are not yet under the watchdog.",
+                "The budget is a count of fixpoint/transfer events, not a clock.",
     },
     "C06": {
         "technique": "reference least-fixpoint model (bit sets over a finite state space) compared for equality + join-only reference iteration for the delay clause; choice-tape PBT and libFuzzer",
@@ -111,5 +111,43 @@ META = {
                 "reached state into bottom.",
         "note": "Histories of array operations outside programs (h_hist) are not generated yet; cell contents are only observed through loads, as the property states. "
                 "One recorded finding (array_adaptive with a small max_array_size) is reported as KNOWN-FINDING.",
+    },
+    "C17": {
+        "technique": "well-formedness predicate + bidirectional trace matching between original and transformed CFG under the reference interpreter (differential / translation validation by sampled executions); choice-tape PBT (rapidcheck) and libFuzzer",
+        "text": "Sampled search over generated functions (all CFG shapes incl. unreachable blocks, dead ends, self loops, entry in a cycle) and chains of "
+                "simplify / dead-code elimination / lower_safe_assertions: the transformed CFG must be well formed and every exit-reaching execution of one CFG "
+                "must have a counterpart in the other with the same evaluated conditions, assertion outcomes and outputs.",
+        "note": "Equivalence is established on sampled executions only (<= 30 blocks, 2-4 initial states); whether ONLY proven assertions are lowered is not observable "
+                "under the property as stated (a failing assertion and a blocked assume both fail to reach the exit).",
+    },
+    "C18": {
+        "technique": "metamorphic non-interference test (perturb a variable reported dead / perturb a variable at block entry and compare the continuation) + independent reachability search; choice-tape PBT (rapidcheck) and libFuzzer",
+        "text": "Sampled search: perturbing a variable that liveness reports dead at the end of a block must not change the rest of the execution; every "
+                "assertion reachable from a block is listed by the crawler, together with every variable whose perturbation at the block entry changes the "
+                "operands of that assertion along the same path.",
+        "note": "Sampled executions (<= 24 blocks); control dependences of the crawler are counted, not judged; array cells are perturbed one at a time.",
+    },
+    "C09": {
+        "technique": "inter-procedural concrete reference interpreter + gamma-membership of block invariants and (pre,post) summaries (differential); choice-tape PBT (rapidcheck) and libFuzzer",
+        "text": "Sampled search over generated call graphs (name collisions between callers, callees, formals and actuals; permuted/repeated actuals; direct and mutual "
+                "recursion) and every parameter of the top-down analyzer: each concrete state reaching a block of any function must be inside the context-insensitive "
+                "invariant reported for it, and every stored summary must relate inputs and outputs of every concrete call whose inputs satisfy its precondition.",
+        "note": "Recursion depth 6, <= 5 functions. One recorded finding (joined calling contexts when max_call_contexts is finite) is reported as KNOWN-FINDING; it also covers "
+                "every summary failure under a finite context bound, so other summary defects there can hide behind it.",
+    },
+    "C10": {
+        "technique": "inter-procedural reference interpreter + gamma-membership of invariants; summaries checked against direct concrete runs of each function from arbitrary inputs; choice-tape PBT (rapidcheck) and libFuzzer",
+        "text": "Sampled search over call graphs in the documented domain of the bottom-up analyzer and four (summary domain, invariant domain) pairs including differing ones: "
+                "bottom-up summaries must contain the (inputs, outputs) pair of every terminating concrete execution of the function from arbitrary inputs, and the top-down "
+                "phase's invariants every state reached from main.",
+        "note": "Recursion depth 6, <= 5 functions; main is the single root (documented restriction).",
+    },
+    "C11": {
+        "technique": "concrete reference interpreter: states of violating (resp. good-exit) executions must be members of the backward precondition of every block they pass (differential); choice-tape PBT (rapidcheck) and libFuzzer",
+        "text": "Sampled search over programs, error/good mode, supplied forward invariants (none or from a real forward run) and backward-capable domains (intervals, zones in "
+                "both representations, octagons, flat boolean; array_adaptive with recorded findings): every entry state of every block on an execution that later violates an "
+                "assertion (resp. reaches the exit in a good final state) must be inside the necessary precondition reported for that block; hence an empty precondition at the "
+                "entry means no violation.",
+        "note": "Preconditions are observable at block entries only; region statements are excluded (backward transformers documented as not implemented).",
     },
 }
